@@ -101,9 +101,9 @@ static void run_case(const JVal& in) {
     } else if (op == "gt.op") {
         Fq12 a, b, r; U(in["a"], a); if (in.has("b")) U(in["b"], b); memset(&r, 0xA5, sizeof r);
         int alias = (int) in.num("alias", 0);
-        Fq12* d = alias == 1 ? &a : (alias == 2 ? &b : &r);
+        Fq12* d = (alias == 1 || alias == 3) ? &a : (alias == 2 ? &b : &r);
         std::string which = in["which"].s;
-        if (which == "add") embedded_pairing_bls12_381_gt_add((embedded_pairing_bls12_381_fq12_t*) d, (embedded_pairing_bls12_381_fq12_t*) &a, (embedded_pairing_bls12_381_fq12_t*) &b);
+        if (which == "add") embedded_pairing_bls12_381_gt_add((embedded_pairing_bls12_381_fq12_t*) d, (embedded_pairing_bls12_381_fq12_t*) &a, (embedded_pairing_bls12_381_fq12_t*) (alias == 3 ? &a : &b));
         else if (which == "negate") embedded_pairing_bls12_381_gt_negate((embedded_pairing_bls12_381_fq12_t*) d, (embedded_pairing_bls12_381_fq12_t*) &a);
         else if (which == "double") embedded_pairing_bls12_381_gt_double((embedded_pairing_bls12_381_fq12_t*) d, (embedded_pairing_bls12_381_fq12_t*) &a);
         else if (which == "equal") { out.set("v", (long long) (embedded_pairing_bls12_381_gt_equal((embedded_pairing_bls12_381_fq12_t*) &a, (embedded_pairing_bls12_381_fq12_t*) &b) ? 1 : 0)); }
@@ -116,13 +116,19 @@ static void run_case(const JVal& in) {
         }
         else { out.set("skip", 1); }
         if (which != "equal" && which != "marshal") out.set("r", J(*d));
+    } else if (op == "gt.finalexp") {
+        Fq12 a, r; U(in["a"], a); memset(&r, 0xA5, sizeof r);
+        Fq12* d = in.num("alias", 0) == 1 ? &a : &r;
+        final_exponentiation(*d, a);
+        out.set("r", J(*d));
     } else if (op == "gt.random") {
         Fq12 base, r; U(in["a"], base); memset(&r, 0xA5, sizeof r);
         BigInt<256> y; memset(&y, 0xA5, sizeof y);
         g_script = in.has("stream") ? in["stream"].byte_vec() : std::vector<uint8_t>(); g_script_pos = 0; g_reqs = JVal::arr();
-        if (in.str("variant", "c") == "c") embedded_pairing_bls12_381_gt_multiply_random((embedded_pairing_bls12_381_fq12_t*) &r, (embedded_pairing_core_bigint_256_t*) &y, (embedded_pairing_bls12_381_fq12_t*) &base, scripted_random);
-        else r.random_gt(y, base, scripted_random);
-        out.set("r", J(r)); out.set("y", J(y)); out.set("reqs", g_reqs);
+        Fq12* d = in.num("alias", 0) == 1 ? &base : &r;       // alias 1: the result object is the base
+        if (in.str("variant", "c") == "c") embedded_pairing_bls12_381_gt_multiply_random((embedded_pairing_bls12_381_fq12_t*) d, (embedded_pairing_core_bigint_256_t*) &y, (embedded_pairing_bls12_381_fq12_t*) &base, scripted_random);
+        else d->random_gt(y, base, scripted_random);
+        out.set("r", J(*d)); out.set("y", J(y)); out.set("reqs", g_reqs);
     } else out.set("skip", 1);
     ev.set("out", out);
     if (!out.has("skip")) emit(g_out, ev);
